@@ -24,7 +24,7 @@ from harness.c10_stack import setup_logging_once
 from harness.common import Machinery, Report
 from harness.x05_mem import addr_bytes, run_case, sweep_of
 
-MC_QUICK = ["c", "aq", "bq"]
+MC_QUICK = ["c", "aq", "aq2", "bq"]
 MC_THOROUGH = ["c", "a", "b"]
 MC_COV = "cov"
 NEG = {
@@ -156,14 +156,14 @@ def _from_behaviour(st: dict[str, Any], n: int) -> tuple[dict[str, Any], dict[st
 
 
 def _sim_start(ex: ThreadPoolExecutor, tier: str, seed: int) -> list[Future[Any]]:
-    nsim = 15 if tier == "quick" else 150
+    nsim = 10 if tier == "quick" else 150
     return [ex.submit(tlc.simulate_behaviours, "MC_MemoryScan", f"MC_MemoryScan_{cfg}.cfg", num=nsim, depth=60,
                       seed=seed + 11 + j, timeout=1800) for j, cfg in enumerate(("simA", "simB"))]
 
 
 def _spec_to_code(rep: Report, tier: str, futs: list[Future[Any]]) -> list[tuple[dict[str, Any], dict[str, Any]]]:
     out: list[tuple[dict[str, Any], dict[str, Any]]] = []
-    nsim = 15 if tier == "quick" else 150
+    nsim = 10 if tier == "quick" else 150
     for f in futs:
         _res, behs = f.result()
         for n, b in enumerate(behs):
@@ -325,7 +325,7 @@ def run(tier: str, seed: int) -> Report:
     rep.extra["exhaustive_spaces"] = (
         "thorough: all 5^5 = 3125 abstract models (5 answer classes on the 5 marker addresses 0x00, 0x02, 0xFF, 0x0100, "
         "0xFF00000000) and the full cross product drop position x check_session n x session read mode x session-change "
-        "budget x ECUReset accepted/refused (1680 cases) of harness/x05_cases.py; quick: every 25th / 17th of them; "
+        "budget x ECUReset accepted/refused (1680 cases) of harness/x05_cases.py; quick: every 40th / 25th of them; "
         "everything else (random models) seeded samples")
     # ---- 5. binding self-tests
     _selftest(rep, traces, uniq, sweeps, verdicts)
